@@ -27,6 +27,119 @@ def corpus_texts():
     return [open(os.path.join(d, f)).read() for f in sorted(os.listdir(d)) if f.endswith(".pdl")]
 
 
+UNMODELLED = ("badLayout", "badValue", "nonTermination")
+
+
+def compare_with_model(run, d, T, s, kind, r, mc, is_struct, tags):
+    """emitted C++ parser vs its Lean model (Pdlv.Cxx) on one byte string: acceptance, field values, octets left (structs),
+    and failed assertions / sanitizer reports against the model's hazards"""
+    if mc.get("r") == "panic" and mc.get("h") in UNMODELLED:
+        run.hist("cxx_model", "unmodelled:" + str(mc.get("h")))
+        return
+    rep = {"pdl": d["text"], "type": T, "input_hex": s.hex(), "kind": kind, "cxx": r, "model_of_emitted_code": mc,
+           "corr": "corr:C14/%s" % ("struct-parse" if is_struct else "view")}
+    ir = r.get("r")
+    if ir in ("exception", "timeout", "abort", "ub"):
+        cls = "hazard"
+    elif ir == "ok":
+        cls = "ok"
+    elif ir == "err":
+        cls = "err"
+    else:
+        return
+    mcls = {"ok": "ok", "err": "err", "panic": "hazard"}.get(mc.get("r"))
+    run.hist("cxx_model", "%s/%s" % (cls, mcls))
+    if cls != mcls:
+        run.violation("corr", "C++ parser model and emitted parser disagree on %s %s: emitted %s, model %s" %
+                      (T, s.hex()[:40], cls, mcls + (":" + str(mc.get("h")) if mcls == "hazard" else "")), rep, found_input=False)
+        return
+    if cls == "ok" and r.get("type") == T:
+        if W.canon(r["value"]) != W.canon(mc.get("value")):
+            run.violation("corr", "C++ parser model and emitted parser return different field values on %s %s" % (T, s.hex()[:40]),
+                          rep, found_input=False)
+        elif is_struct and r.get("rest") != mc.get("rest"):
+            run.violation("corr", "C++ parser model and emitted parser leave different octets on %s %s" % (T, s.hex()[:40]),
+                          rep, found_input=False)
+        else:
+            run.count("model_agreements")
+
+
+def wrap_candidates(enc, big):
+    """copies of `enc` with a 3-, 4- or 8-octet window overwritten by a value whose product with a small element size
+    wraps around 2^32 / 2^64 to something small"""
+    out = []
+    L = len(enc)
+    for k, top in ((3, 1 << 24), (4, 1 << 32), (8, 1 << 64)):
+        for i in range(0, max(0, L - k + 1)):
+            for es in (2, 3, 4, 5, 6, 7, 8):
+                for delta in (0, 1, 2):
+                    v = (-(-top // es) + delta) % (1 << (8 * k))
+                    w = v.to_bytes(k, "big" if big else "little")
+                    out.append(enc[:i] + w + enc[i + k:])
+    return out
+
+
+def model_pass(run, a):
+    """Second corpus: the constructs whose C++ support deviates from the reference (arrays of enums and of structs in
+    views, count fields of 24 bits and more, padded counted arrays) are kept out of the first corpus so that the
+    recorded findings do not mask anything else; here the emitted parsers are compared with their MODEL only, which
+    has those deviations (unvalidated elements, wrapping products, arrays not bounded by their padding)."""
+    o = B.opts_for("cxx")
+    o.enum_arrays = True
+    o.struct_arrays = True
+    o.narrow_counts = False
+    n = 25 if a.tier == "quick" else 150
+    be = B.Backend(run, "cxx", a.tier, a.seed + 7, n, tag="cxxm", opts=o)
+    be.generate(stratify=False)
+    if not be.build():
+        be.close()
+        return
+    for i, d in enumerate(be.descs):
+        types = d["types"]
+        for T in be.types(i, roots_only=True):
+            decl = types.decls[T]
+            is_struct = decl["kind"] == "struct_declaration"
+            tags = B.features_of(types.parent_chain(decl), types)
+            vals = [GV.gen_value(types, T, be.rng)[0] for _ in range(3 if a.tier == "quick" else 8)]
+            refs = be.model(i, T, [{"k": "ref", "v": v} for v in vals])
+            if not isinstance(refs, list):
+                continue
+            strings = [("empty", b"")]
+            for rf in refs:
+                if rf.get("r") == "ok":
+                    sd = bytes.fromhex(rf["hex"])
+                    strings.append(("valid", sd))
+                    strings += GV.mutants(be.rng, sd, 6 if a.tier == "quick" else 14)
+            # adversarial counts: values whose product with an element size wraps at 2^32 / 2^64; the model picks
+            # the candidates on which it predicts a failed assertion (all of them are run), the rest is sampled
+            if tags.get("wide_count"):
+                big = d["analyzed"]["endianness"]["value"] == "big_endian" if "endianness" in d["analyzed"] else False
+                cands = []
+                for rf in refs[:2]:
+                    if rf.get("r") == "ok":
+                        cands += wrap_candidates(bytes.fromhex(rf["hex"]), big)
+                cm = be.model(i, T, [{"k": ("cxxdec" if is_struct else "cxxview"), "hex": sd.hex()} for sd in cands]) if cands else []
+                if isinstance(cm, list):
+                    hz = [sd for sd, mc in zip(cands, cm) if mc.get("r") == "panic" and mc.get("h") not in UNMODELLED]
+                    oth = [sd for sd, mc in zip(cands, cm) if mc.get("r") != "panic"]
+                    be.rng.shuffle(oth)
+                    strings += [("wrap-hazard", sd) for sd in hz[:40]] + [("wrap", sd) for sd in oth[:20]]
+            seen, uniq = set(), []
+            for k, sd in strings:
+                if sd not in seen:
+                    seen.add(sd)
+                    uniq.append((k, sd))
+            mcs = be.model(i, T, [{"k": ("cxxdec" if is_struct else "cxxview"), "hex": sd.hex()} for _, sd in uniq])
+            if not isinstance(mcs, list):
+                continue
+            for (kind, sd), mc in zip(uniq, mcs):
+                r = be.ask(i, T, "dec", sd.hex())
+                run.case((d["text"], T, sd, "model-pass"))
+                run.hist("model_pass_outcomes", str(r.get("r")))
+                compare_with_model(run, d, T, sd, kind, r, mc, is_struct, tags)
+    be.close()
+
+
 def root_of(types, T):
     return types.parent_chain(types.decls[T])[-1]["id"]
 
@@ -120,8 +233,16 @@ def main(argv):
             mo = be.model(i, T, [{"k": ("dec" if is_struct else "decfull"), "hex": s.hex()} for _, s in uniq])
             if not isinstance(mo, list):
                 continue
-            for (kind, s), m in zip(uniq, mo):
+            # the model of the emitted parser (Pdlv.Cxx): struct Parse / view Parse + getters, types without parent
+            mcs = None
+            if not decl.get("parent_id"):
+                mcs = be.model(i, T, [{"k": ("cxxdec" if is_struct else "cxxview"), "hex": s.hex()} for _, s in uniq])
+                if not isinstance(mcs, list):
+                    mcs = None
+            for n_s, ((kind, s), m) in enumerate(zip(uniq, mo)):
                 r = be.ask(i, T, "dec", s.hex())
+                if mcs is not None:
+                    compare_with_model(run, d, T, s, kind, r, mcs[n_s], is_struct, tags)
                 run.case((d["text"], T, s))
                 run.hist("dec_outcomes", str(r.get("r")) + (":" + str(r.get("e")) if r.get("r") in ("err", "exception") else ""))
                 rep = {"pdl": d["text"], "type": T, "input_hex": s.hex(), "kind": kind, "cxx": r, "reference": m}
@@ -171,6 +292,7 @@ def main(argv):
                         run.count("specialized_ok")
             run.sample({"type": T, "strings": len(uniq)}, limit=4)
     be.close()
+    model_pass(run, a)
     return run.finish(proof, extra_cov={
         "rule": "cxx-class descriptions (no element-size/custom fields), both endiannesses; in-range values through "
                 "serialize / size / parse_all; reference encodings, mutants, prefixes, random strings through parse_all of "
